@@ -23,6 +23,8 @@ pub struct Opts {
   pub skip_last_lazy: bool,
   /// buffer(notifier): notifier completion is ignored instead of flush+complete
   pub buffer_ignore_notifier_complete: bool,
+  /// take(0) completes at subscription instead of mirroring the source's terminal
+  pub take0_immediate: bool,
 }
 
 /// cut after the first terminal
@@ -162,12 +164,19 @@ pub fn eval_un(op: &Un, t: Tl, o: Opts) -> Option<Tl> {
     Un::MapTo(c) => pointwise(t, |_| Some(c.clone())),
     Un::Filter(p) => pointwise(t, |v| if p.eval(&v) { Some(v) } else { None }),
     Un::FilterMap => pointwise(t, fm_even_half),
-    Un::Tap | Un::OnComplete | Un::BoxIt | Un::Finalize | Un::CompleteStatus => t,
+    Un::Tap | Un::OnComplete | Un::BoxIt | Un::Finalize | Un::CompleteStatus | Un::TrackLive => t,
     Un::Take(n) => {
       if *n == 0 {
-        return None;
+        // statement and docs are silent: no item ever, and the terminal is either
+        // immediate or the source's own
+        if o.take0_immediate {
+          vec![(-1, Ev::C)]
+        } else {
+          pointwise(t, |_| None)
+        }
+      } else {
+        take_n(t, *n)
       }
-      take_n(t, *n)
     }
     Un::First => take_n(t, 1),
     Un::FirstOr(d) => default_if_empty(take_n(t, 1), d.clone()),
